@@ -30,3 +30,9 @@ Proof. repeat split; reflexivity. Qed.
 Lemma gen_c07_guard :
   guard_row "check_proof_of_possession" = Some ("validate_signatures", 0, 1)%Z.
 Proof. reflexivity. Qed.
+
+(* bundle ids are collected over ALL bundles (a dictionary of the ids seen so far), not compared between neighbours *)
+Lemma gen_unique_ids_shape :
+  Gen.Skeleton.check_unique_ids_shape =
+    ["seen = {}"%string;"for bundle in request.bundles: if bundle.id in seen: raise KSR_BUNDLE_UNIQUE_Violation ; seen[bundle.id] = 1"%string;"_num_bundles = len(request.bundles)"%string;"return"%string].
+Proof. repeat split; reflexivity. Qed.
